@@ -72,6 +72,22 @@ def _inputs(ctx, mod):
                         w = {"op": "write", "writer": "w", "kind": kind, "opts": opts}
                         ins.append({"id": "p%d" % pk, "cast": "pairs", "ops": [
                             mk(a), mk(b), dict(w, set="s1"), dict(w, set="s2"), dict(w, set="s1")]})
+        # one writer object writes a set, the set is edited in place, the same object writes it again:
+        # nothing the first write remembered may show in the second
+        pk = 0
+        for kind, cfgs in session.WRITER_CONFIGS.items():
+            for opts in cfgs:
+                for a in pool:
+                    if a[1] in ("b_empty", "b_px"):
+                        continue
+                    for edit in ("retime", "node_text", "caption_time", "layout_deep"):
+                        pk += 1
+                        if ctx.quick and pk % 3:
+                            continue
+                        w = {"op": "write", "writer": "w", "kind": kind, "opts": opts}
+                        ins.append({"id": "e%d" % pk, "cast": "write-edit-write", "ops": [
+                            mk(a), dict(w, set="s1"), {"op": "edit", "set": "s1", "edit": edit}, dict(w, set="s1"),
+                            {"op": "edit", "set": "s1", "edit": "retime"}, dict(w, set="s1")]})
     else:
         # every ordered pair of documents of one format through one shared reader object
         from . import corpus
